@@ -57,7 +57,7 @@ fn decode(idx: u64) -> ([usize; M], usize, usize) {
 }
 fn params(tier: Tier) -> (usize, Vec<usize>, Vec<(Backend, SwapMode)>) {
     match tier {
-        Tier::Quick => (6, vec![0, 2, 5], vec![(Backend::Vm, SwapMode::InProcess), (Backend::Wasm, SwapMode::InProcess)]),
+        Tier::Quick => (6, vec![0, 2, 5], vec![(Backend::Vm, SwapMode::InProcess), (Backend::Wasm, SwapMode::InProcess), (Backend::Wasm, SwapMode::Subprocess)]),
         Tier::Thorough => (12, (0..=8).collect(), vec![(Backend::Vm, SwapMode::InProcess), (Backend::Wasm, SwapMode::InProcess), (Backend::Wasm, SwapMode::Subprocess)]),
     }
 }
@@ -79,6 +79,15 @@ fn run_plain(b: Backend, src: &str, t0: usize, t1: usize, stream_i: usize) -> Re
     Ok(Trace { out })
 }
 /// run old for n steps, swap to new, run until T
+/// clause prefix: "vm", "wasm" (payload prepared with the new skeleton) or "wasmsub" (payload prepared the way the CLI
+/// does after its compiler subprocess: no skeleton, no signatures)
+fn bname(b: Backend, mode: SwapMode) -> &'static str {
+    match (b, mode) {
+        (Backend::Vm, _) => "vm",
+        (Backend::Wasm, SwapMode::InProcess) => "wasm",
+        (Backend::Wasm, SwapMode::Subprocess) => "wasmsub",
+    }
+}
 fn run_edit(b: Backend, mode: SwapMode, old: &str, new: &str, n: usize, t: usize, stream_i: usize) -> Result<(Trace, Result<bool, RunErr>), String> {
     let inputs = inputs_for(stream_i, 1);
     let mut r = Run::start(b, old, false).map_err(|e| format!("start: {e:?}"))?;
@@ -154,10 +163,10 @@ impl C07 {
                 traces += 1;
                 let label = format!("{} {:?} after {n} steps: {what}", b.name(), mode);
                 match run_edit(b, mode, &old_src, &new_src, n, t, 0) {
-                    Err(m) => fails.push(Fail { clause: format!("{}_swap_or_step_crashed", b.name()), detail: format!("{label}: {m}") }),
+                    Err(m) => fails.push(Fail { clause: format!("{}_swap_or_step_crashed", bname(b, mode)), detail: format!("{label}: {m}") }),
                     Ok((tr, sw)) => {
                         if !matches!(sw, Ok(true)) {
-                            fails.push(Fail { clause: format!("{}_swap_refused", b.name()), detail: format!("{label}: {sw:?}") });
+                            fails.push(Fail { clause: format!("{}_swap_refused", bname(b, mode)), detail: format!("{label}: {sw:?}") });
                             continue;
                         }
                         for (k, o) in tr.out.iter().enumerate() {
@@ -172,7 +181,7 @@ impl C07 {
                             let (got, exp) = (chan(&tr, c), chan(&old_full, c));
                             if !same(&got, &exp) {
                                 fails.push(Fail {
-                                    clause: format!("{}_untouched_cell_inside_edited_function_lost_state", b.name()),
+                                    clause: format!("{}_untouched_cell_inside_edited_function_lost_state", bname(b, mode)),
                                     detail: format!("{label}: channel {c} got {got:?} expected {exp:?}"),
                                 });
                             }
@@ -292,7 +301,7 @@ impl Prop for C07 {
                     Ok(x) => x,
                     Err(m) => {
                         outcome = "failed".into();
-                        fails.push(Fail { clause: format!("{}_swap_or_step_crashed", b.name()), detail: format!("{label}: {m}") });
+                        fails.push(Fail { clause: format!("{}_swap_or_step_crashed", bname(b, mode)), detail: format!("{label}: {m}") });
                         continue;
                     }
                 };
@@ -305,11 +314,11 @@ impl Prop for C07 {
                 }
                 if is_broken {
                     if !matches!(sw, Err(RunErr::Compile(_))) {
-                        fails.push(Fail { clause: format!("{}_broken_edit_not_rejected", b.name()), detail: format!("{label}: swap result {sw:?}") });
+                        fails.push(Fail { clause: format!("{}_broken_edit_not_rejected", bname(b, mode)), detail: format!("{label}: swap result {sw:?}") });
                     }
                     if let Some((_, d)) = first_diff(&tr.out, &old_full.out, bits_eq) {
                         outcome = "failed".into();
-                        fails.push(Fail { clause: format!("{}_broken_edit_disturbed_running_program", b.name()), detail: format!("{label}: {d}") });
+                        fails.push(Fail { clause: format!("{}_broken_edit_disturbed_running_program", bname(b, mode)), detail: format!("{label}: {d}") });
                     }
                     continue;
                 }
@@ -317,7 +326,7 @@ impl Prop for C07 {
                     Ok(true) => {}
                     other => {
                         outcome = "failed".into();
-                        fails.push(Fail { clause: format!("{}_swap_refused", b.name()), detail: format!("{label}: {other:?}") });
+                        fails.push(Fail { clause: format!("{}_swap_refused", bname(b, mode)), detail: format!("{label}: {other:?}") });
                         continue;
                     }
                 }
@@ -407,7 +416,7 @@ impl Prop for C07 {
                     } else if edit_kind == "const" {
                         outcome = "failed".into();
                         fails.push(Fail {
-                            clause: format!("{}_state_not_carried_over_const_edit", b.name()),
+                            clause: format!("{}_state_not_carried_over_const_edit", bname(b, mode)),
                             detail: format!("{label}: channel {slot} after swap {:?}, expected {:?} (or a pairing with an identical sibling)", &got[slot][n..], &exp),
                         });
                         explained[slot] = true;
@@ -420,12 +429,12 @@ impl Prop for C07 {
                     outcome = "failed".into();
                     if c == slot && edit_kind != "none" {
                         fails.push(Fail {
-                            clause: format!("{}_new_voice_not_started_from_zero", b.name()),
+                            clause: format!("{}_new_voice_not_started_from_zero", bname(b, mode)),
                             detail: format!("{label}: channel {c} after swap {:?}, fresh start gives {:?}", &got[c][n..], &fresh[c]),
                         });
                     } else {
                         fails.push(Fail {
-                            clause: format!("{}_untouched_voice_lost_state", b.name()),
+                            clause: format!("{}_untouched_voice_lost_state", bname(b, mode)),
                             detail: format!("{label}: channel {c} ({}) got {:?} expected {:?}", VOICES[v[c]].0, &got[c], &oldc[c]),
                         });
                     }
